@@ -938,3 +938,55 @@ Lemma guards_only_reject fuel e t b x :
   (pread bin_prim true fuel e t b = Ok x -> gread fuel e t b = Ok x) /\
   (pread compact_prim true fuel e t b = Ok x -> gcread fuel e t b = Ok x).
 Proof. split; [apply guarded_read_refines_bin|apply guarded_read_refines_compact]. Qed.
+(** * The size guard refuses only what the bare binary reader fails on: every element takes a byte *)
+Lemma wdec_consumes fuel e t b v r :
+  (2 * length b + 2 <= fuel)%nat -> wdec fuel e t b = Ok (v, r) -> (length r < length b)%nat.
+Proof.
+  intros Hf H. pose proof (bin_pdec_good false e fuel 0 t b Hf) as Hg.
+  rewrite (proj1 (pdec_bin_is_wdec e fuel)) in Hg. rewrite H in Hg. exact Hg.
+Qed.
+
+Lemma wdec_seq_needs_bytes e et fuel : forall n b l r,
+  (2 * length b + 3 <= fuel)%nat -> wdec_seq fuel e et n b = Ok (l, r) ->
+  Z.max 0 n <= Z.of_nat (length b) - Z.of_nat (length r).
+Proof.
+  induction fuel as [|f IH]; intros n b l r Hf H; [lia|].
+  cbn [wdec_seq] in H. destruct (n <=? 0) eqn:En.
+  - inversion H; subst. apply Z.leb_le in En. lia.
+  - apply Z.leb_gt in En.
+    destruct (wdec f e et b) as [[x r1]| | |] eqn:E1; cbn [bind] in H; try discriminate.
+    pose proof (wdec_consumes f e et b x r1 ltac:(lia) E1) as Hc.
+    destruct (wdec_seq f e et (n - 1) r1) as [[l' r2]| | |] eqn:E2; cbn [bind] in H; try discriminate.
+    inversion H; subst. pose proof (IH (n - 1) r1 l' r ltac:(lia) E2). lia.
+Qed.
+
+Lemma wdec_pairs_needs_bytes e kt vt fuel : forall n b l r,
+  (2 * length b + 3 <= fuel)%nat -> wdec_pairs fuel e kt vt n b = Ok (l, r) ->
+  2 * Z.max 0 n <= Z.of_nat (length b) - Z.of_nat (length r).
+Proof.
+  induction fuel as [|f IH]; intros n b l r Hf H; [lia|].
+  cbn [wdec_pairs] in H. destruct (n <=? 0) eqn:En.
+  - inversion H; subst. apply Z.leb_le in En. lia.
+  - apply Z.leb_gt in En.
+    destruct (wdec f e kt b) as [[k r1]| | |] eqn:E1; cbn [bind] in H; try discriminate.
+    pose proof (wdec_consumes f e kt b k r1 ltac:(lia) E1) as Hc1.
+    destruct (wdec f e vt r1) as [[x r2]| | |] eqn:E2; cbn [bind] in H; try discriminate.
+    pose proof (wdec_consumes f e vt r1 x r2 ltac:(lia) E2) as Hc2.
+    destruct (wdec_pairs f e kt vt (n - 1) r2) as [[l' r3]| | |] eqn:E3; cbn [bind] in H; try discriminate.
+    inversion H; subst. pose proof (IH (n - 1) r2 l' r ltac:(lia) E3). lia.
+Qed.
+
+(** a list / set / map announcing more elements than bytes remain is never read successfully by the
+    bare TBinaryProtocol reader either: FProtocol's refusal changes the moment of the error (before
+    the allocation instead of after), not the outcome *)
+Theorem size_guard_changes_no_outcome_bin e fuel n b :
+  (2 * length b + 3 <= fuel)%nat -> zlen b < n ->
+  (forall et, is_ok (wdec_seq fuel e et n b) = false) /\
+  (forall kt vt, is_ok (wdec_pairs fuel e kt vt n b) = false).
+Proof.
+  intros Hf Hn. unfold zlen in Hn. split; intros.
+  - destruct (wdec_seq fuel e et n b) as [[l r]| | |] eqn:E; try reflexivity.
+    pose proof (wdec_seq_needs_bytes e et fuel n b l r Hf E). lia.
+  - destruct (wdec_pairs fuel e kt vt n b) as [[l r]| | |] eqn:E; try reflexivity.
+    pose proof (wdec_pairs_needs_bytes e kt vt fuel n b l r Hf E). lia.
+Qed.
